@@ -134,7 +134,7 @@ class ExecutionContext(AbstractContext):
         self.tzt_big_maps.clear()
         self.global_constants.clear()
 
-    def set_counter(self, counter: int):
+    def set_counter(self, counter: Optional[int]):
         self.counter = counter
 
     def get_counter(self) -> int:
